@@ -422,6 +422,15 @@ pub fn gen_plan(seed: u64, prof: &Profile) -> Plan {
             }
         }
     }
+    if retries_on && cfg.closure_retry.is_none() && r.chance(1, 5) {
+        // only scenarios whose inherited tags satisfy the expression get the configured retries
+        let expr = (*r.pick(&["@serial", "not @serial", "not @allow.skipped", "@serial or @allow.skipped"])).to_owned();
+        if r.chance(1, 2) {
+            cfg.cli_retry_filter = Some(expr);
+        } else {
+            cfg.builder_retry_filter = Some(expr);
+        }
+    }
     if fail_fast {
         if r.chance(1, 2) {
             cfg.cli_fail_fast = true;
